@@ -267,7 +267,8 @@ CLAIMS = {
           "extract_key_priority / extract_negative_index / extract_missing. EVERY HISTORY: concAdjust_cell (the statistic slot's up/down on a value's cell), concOp_cell, "
           "conc_run_refines_cells (for every sequence of requests and exits of any length over at most `capacity` distinct values the controller admits exactly what independent per-value "
           "in-flight cells admit and holds exactly their counts; nothing is evicted: ConcInv, Lru.room_of_universe) and conc_cap_every_value (no value's in-flight count ever exceeds its "
-          "own threshold). Spec on traces: one isolated reference per (rule, value). Characterised, not asserted: the code counts entries "
+          "own threshold); exit_adjusts_hotspot / build_pass_adjusts_hotspot (World.exit and an admitted World.build apply exactly concAdjust to every controller of the resource: the "
+          "step concOp of those theorems is what the slot chain does). Spec on traces: one isolated reference per (rule, value). Characterised, not asserted: the code counts entries "
           "(batch plays no role) and admits the first request for a never-seen value even with threshold 0. "
           "Isolation half: isolation_admit_iff (admitted iff in-flight + n <= every threshold, any rule list, any batch), isolation_block_names_rule (named rule really exceeded, snapshot = in-flight), "
           "isolation_cap (in-flight never exceeds any threshold over any build/exit sequence with batch >= 1), freed_capacity_usable, iso_conc_eq_open, block type = Isolation. "
